@@ -3,12 +3,21 @@
 //! Oracle: the crash oracle of the runner (panic / abort / stack overflow / reproducible watchdog
 //! hang) while the real `Kanata` processes hostile histories on grammar-generated accepted
 //! configurations. In the `chk` lane arithmetic-overflow panics are violations as well.
+//!
+//! Three case families: (1) systematic: every action kind in every placement context, in-range and
+//! out-of-range numbers; (2) deep switch (c02_deep.rs): `switch` key-match expressions at and beyond
+//! the limits the run-time evaluator asserts (6..=12 nested and / or / not lists, opcode counts
+//! around 4095) with histories that hold exactly the keys that make the short-circuiting evaluator
+//! descend to the innermost list; (3) the whole grammar at random with boundary numbers.
 
 use crate::core::rng::Rng;
 use crate::core::sim::{osc, render_hist, Ev, Sim};
 use crate::core::{CaseOut, Check, Ctx};
 use crate::gen::{self, hist, Profile, K, ALL_KINDS};
 use serde_json::{json, Value};
+
+#[path = "c02_deep.rs"]
+mod deep;
 
 pub struct C02Check;
 pub static C02: C02Check = C02Check;
@@ -91,7 +100,15 @@ fn wrap_in_context(rng: &mut Rng, ctxname: &str, act: &str, k: K) -> String {
     s
 }
 
+/// index layout: [0, nsys) systematic kind x context block, [nsys, nsys + ndeep) deep-switch family
+/// (c02_deep.rs), then the random grammar part
+fn deep_range(ctx: &Ctx) -> std::ops::Range<u64> {
+    systematic_count()..systematic_count() + deep::n_cases(ctx)
+}
+
 fn make_case(ctx: &Ctx, idx: u64) -> Case {
+    // the random part keeps the case numbering it had before the deep-switch family was inserted
+    let idx = if idx >= deep_range(ctx).end { idx - deep::n_cases(ctx) } else { idx };
     let mut rng = Rng::for_case(ctx.seed, "C02", "case", idx);
     let nsys = systematic_count();
     let (cfg, mapped, tag): (String, Vec<u16>, String) = if idx < nsys {
@@ -209,14 +226,21 @@ impl Check for C02Check {
         "C02"
     }
     fn n_cases(&self, ctx: &Ctx) -> u64 {
-        systematic_count() + ctx.tier.sel(12_000, 150_000)
+        systematic_count() + deep::n_cases(ctx) + ctx.tier.sel(12_000, 150_000)
     }
     fn describe(&self, ctx: &Ctx, idx: u64) -> Value {
+        if deep_range(ctx).contains(&idx) {
+            return deep::describe(ctx, idx - deep_range(ctx).start);
+        }
         let c = make_case(ctx, idx);
         json!({"config": c.cfg, "histories": c.hists.iter().map(|h| render_hist(h)).collect::<Vec<_>>()})
     }
     fn run_case(&self, ctx: &Ctx, idx: u64) -> CaseOut {
         let mut out = CaseOut::new();
+        if deep_range(ctx).contains(&idx) {
+            deep::run(ctx, idx - deep_range(ctx).start, &mut out);
+            return out;
+        }
         let c = make_case(ctx, idx);
         if ctx.verbose {
             eprintln!("config:\n{}", c.cfg);
@@ -258,7 +282,7 @@ impl Check for C02Check {
         out
     }
     fn rule(&self) -> String {
-        "case = one generated configuration (first cases: every action kind x every placement context, systematically; then the whole grammar at random with boundary numbers) run against 4 (quick) / 8 (thorough) histories: hostile (any of the 768 codes, double presses, releases of keys that are up, repeats, Tap events, floods of 33-100 zero-gap events), one press flood (17-40 presses over all mapped keys with no tick, a tick, 5-40 more presses, every key released in one burst), one edge-code history (codes 0, 1, 255, 256, 765, 766 and 767 pressed / repeated / tapped / released while up to three mapped keys are held) and physically consistent ones with repeats, gap pools around the configured timeouts, one 70 000-tick quiet stretch. Non-trivial = accepted by the parser; distinct = distinct set of action kinds used (random part) or distinct kind x context (systematic part).".into()
+        "case = one generated configuration (first cases: every action kind x every placement context, systematically; then the deep-switch family described at the end; then the whole grammar at random with boundary numbers) run against 4 (quick) / 8 (thorough) histories: hostile (any of the 768 codes, double presses, releases of keys that are up, repeats, Tap events, floods of 33-100 zero-gap events), one press flood (17-40 presses over all mapped keys with no tick, a tick, 5-40 more presses, every key released in one burst), one edge-code history (codes 0, 1, 255, 256, 765, 766 and 767 pressed / repeated / tapped / released while up to three mapped keys are held) and physically consistent ones with repeats, gap pools around the configured timeouts, one 70 000-tick quiet stretch. Non-trivial = accepted by the parser; distinct = distinct set of action kinds used (random part) or distinct kind x context (systematic part). Deep-switch family (every lane; 7 x 9 x 4 cells x 6 (quick) / 60 (thorough) configurations): a switch whose key-match nests 6..=12 boolean lists (spine), operators per level in nine arrangements (random and/or/not mix, and-not-or cycle, all-not, all-and, all-or, exactly one not, not on every second level, not outermost only, not innermost only), the nested list first / last / in the middle / anywhere among 1-4 operands, innermost list empty or with 1-3 operands, operands = key names, (input real k), layer / base-layer / input virtual constants, key-history / key-timing / input-history items and small sub-lists, optionally one spine level given through a defvar list, the expression first or second in the key-match and in the first or second case, the switch placed on a layer, in an alias, a multi, a virtual key, a fork, a tap-hold hold action or a chords-v2 action; a quarter of the configurations with an acceptable spine (a twentieth of the others) is padded to 4086..=4104 opcodes (either side of the 4095 limit). Each runs 9 histories on fresh instances: nothing held; the descent set (operands preceding / following the nested list held iff their list is an `and`, so that no level is decided early) with the innermost key down, and with it up; every key held; the descent set with every key that is a direct operand of a spine list flipped in turn and the switch key tapped after each flip; two random subsets; one hostile and one consistent random history over the keys of the expression. A rejected configuration is fine (counted); an accepted one must not panic or hang. Distinct there = depth x arrangement x position x placement (x defvar, x padded).".into()
     }
     fn assumptions(&self) -> Vec<String> {
         vec![
@@ -266,10 +290,30 @@ impl Check for C02Check {
             "on-press-delay/on-release-delay above 2 ms are not generated (real sleeps by design)".into(),
             "bounded work per step is approximated by the per-case wall-clock watchdog only".into(),
             "the OS layer only delivers key codes that OsCode::from_u16 knows; other codes are not injected".into(),
+            "deep-switch family: only crashes / hangs are judged, not which case fires. The descent sets are built from the documented meaning of the operators (or / not stop at the first true operand, and at the first false one, a list is entered only when reached); that the code under test really descends is shown by the observed counter deep_innermost_decides (the fired case changes with the innermost key), which has a floor".into(),
+            "deep-switch family: what the parser accepts is not judged (the guide gives no nesting or size limit for key-matches); on the unchanged tree 7 nested lists with operands / 8 with an empty innermost list and 4095 opcodes are the largest accepted forms".into(),
         ]
     }
-    fn floors(&self, _ctx: &Ctx) -> Vec<(&'static str, u64)> {
-        vec![("configs_accepted", 500), ("systematic_accepted", 200)]
+    fn floors(&self, ctx: &Ctx) -> Vec<(&'static str, u64)> {
+        // the deep-switch family has ten times as many configurations in the thorough tier
+        let m = ctx.tier.sel(1, 10);
+        vec![
+            ("configs_accepted", 500),
+            ("systematic_accepted", 200),
+            // deep-switch family: forms on both sides of each limit were generated ...
+            ("deep_configs_accepted", 150 * m),
+            ("deep_accepted_with_not", 100 * m),
+            ("deep_accepted_at_limit", 60 * m),
+            ("deep_rejected_beyond_limit", 400 * m),
+            ("max_deep_spine_accepted", 7),
+            ("deep_wide_accepted", 15 * m),
+            ("deep_wide_rejected", 15 * m),
+            ("deep_accepted_via_defvar", 25 * m),
+            // ... and the descent histories were run and observably reached the innermost operand
+            ("deep_descent_histories", 300 * m),
+            ("deep_innermost_decides", 70 * m),
+            ("deep_innermost_decides_at_limit", 30 * m),
+        ]
     }
     fn hang_is_violation(&self) -> bool {
         true
@@ -277,7 +321,10 @@ impl Check for C02Check {
     fn watchdog_s(&self, _ctx: &Ctx) -> u64 {
         30
     }
-    fn all_lanes_below(&self, _ctx: &Ctx) -> u64 {
-        systematic_count()
+    fn all_lanes_below(&self, ctx: &Ctx) -> u64 {
+        // the systematic block and the first full grid of the deep-switch family (= its quick tier);
+        // the rest of that family is sampled by the lane's stride like the random part
+        let quick = Ctx { tier: crate::core::Tier::Quick, ..ctx.clone() };
+        deep_range(ctx).start + deep::n_cases(&quick).min(deep::n_cases(ctx))
     }
 }
